@@ -28,12 +28,14 @@ static int run_freeze(const std::string &dir, uint64_t seed, long n, const char 
   GenParams gp; gp.max_points = 30; gp.max_faces = 40;
   long k = 0;
   for (long i = 0; k < n && i < 20 * n; ++i) {
-    const bool mesh = force_sub >= 0 ? true : r.coin(2, 3);
+    // force_sub: -1 none, 0 / 2 Edgebreaker sub-method, -3 sequential meshes with compressed connectivity
+    const bool mesh = force_sub >= 0 || force_sub == -3 ? true : r.coin(2, 3);
     Geom g = gen_geometry(r, mesh, gp);
     Opt o = gen_options(r, g);
     if (force_sub >= 0) o.submethod = force_sub;
+    o.compress_conn = force_sub == -3;
     // cover every method / speed systematically over the corpus
-    o.method = force_sub >= 0 ? 1 : (int)(i % 2); o.es = o.ds = (int)(i % 11); o.expert = true;
+    o.method = force_sub >= 0 ? 1 : (force_sub == -3 ? 0 : (int)(i % 2)); o.es = o.ds = (int)(i % 11); o.expert = true;
     if (!mesh && o.method == 1) for (int a = 0; a < g.pc->num_attributes(); ++a) if (g.pc->attribute(a)->data_type() == DT_FLOAT32 && o.qbits[a] == 0) o.qbits[a] = 11;
     Encoded e = encode(g, o);
     if (!e.ok || e.bytes.size() > 4000) continue;
